@@ -31,6 +31,10 @@ def replay():
     bad = [o for o in bad if not o["ok"]]
     return bool(bad), "; ".join(o["name"] + ": " + o["detail"][:160] for o in bad[:3]) or "all run-time contracts hold"
 ''', kind="bounded_native_rerun")
+    if getattr(chk, "level", "proof") == "exploration":
+        # nothing of a purely bounded check goes through the symbolic engine: its assumptions A1-A5 do not apply; these do
+        chk.assumptions[:] = ["native run: the real package is executed by CPython with IEEE floating point (NUMBA_DISABLE_JIT=1: the interpreted definitions, not the compiled ones)",
+                              "bounded: the statement holds for the enumerated inputs only; the input set is written down in the docstring of bounded/" + script]
     n = 0
     for line in out.stdout.splitlines():
         if line.startswith("@@OBL@@"):
